@@ -102,7 +102,7 @@ PROPS["C01"] = dict(
           "class, consumer count)"
           ' Transports part: one stream is played over rtsp-tcp, ws-rtsp, wsp, rtsp-udp, multicast (shard 0), http-flv and ws-flv at once; the published sequence contains a back-to-back burst of 48 packets of 9-15 KB (more than the session write buffer within one flush tick); a torn interleaved byte stream is reported as such'
           ' Multicast: an earlier member plays and leaves before the judged member joins (the proxy is restarted per generation); an attached datagram consumer that is given nothing at all is a violation'
-          ' Control channel: sender reports are published on the video control channel and must arrive intact on the negotiated RTCP destination of the RTSP/TCP and RTSP/UDP players (the UDP player binds its RTCP socket below its RTP port in even runs)'
+          ' Control channel: sender reports are published on the video control channel and must arrive intact on the negotiated RTCP destination of the RTSP/TCP and RTSP/UDP players (the UDP player binds its RTCP socket below its RTP port in even runs); on RTSP/TCP every report published between the first and the last video packet that player received must have arrived, on UDP at least one'
           ' A companion multicast member of the same generation joins before the judged member and leaves in the middle of the publication: the judged member must go on receiving'),
     level_text=("Recorded-history monitor over the real fan-out path: at-most-once, publish order, byte identity (hash at publish vs hash at "
                 "delivery vs hash after the run), completeness over the attached interval, 1-vs-N independence"),
